@@ -197,6 +197,9 @@ def planted(rng, gen):
     t = anytrees.with_metadata_islands(rng, gen, rng.choice([10, 25, 60, 120])) if rng.random() < 0.6 \
         else gen.valid_tree(rng.choice(anytrees.ROOTS), rng, rng.choice([10, 25, 60]))
     log = []
+    if rng.random() < 0.3:
+        treegen.decorate_like_import(rng, t)
+        log.append("decorated-like-import")
     for _ in range(rng.randint(0, 6)):
         nodes = anytrees.judged_nodes(t)
         n = rng.choice(nodes)
